@@ -398,8 +398,10 @@ def Reject.all : List Reject :=
    .callExpired, .codecEmpty, .codecTag, .codecZstd, .segHeader, .segBody, .pairing, .method]
 
 /-- HTTP status + message of the response to a rejected token, looked up in the extracted raise sites -/
-def response (r : Reject) : Option (String × String) :=
-  (Token.rejectSites.find? (fun s => s.1 == r.site)).map (fun s => (s.2.2, s.2.1))
+def responseIn (sites : List (String × String × String)) (r : Reject) : Option (String × String) :=
+  (sites.find? (fun s => s.1 == r.site)).map (fun s => (s.2.2, s.2.1))
+
+def response (r : Reject) : Option (String × String) := responseIn Token.rejectSites r
 
 /-! ## minted tokens (history) -/
 
